@@ -318,13 +318,17 @@ func (u *Url) Clone() *Url {
 		path:         u.path.clone(),
 		query:        cloneStringPointer(u.query),
 		fragment:     cloneStringPointer(u.fragment),
-		searchParams: u.SearchParams().Clone(),
 		parser:       u.parser,
 		isIPv4:       u.isIPv4,
 		isIPv6:       u.isIPv6,
 	}
-	// the cloned search parameters belong to the clone, not to the original
-	c.searchParams.url = c
+	// Search parameters are created lazily. Cloning must not create them in the original, which
+	// may be shared between goroutines as the base of a resolution.
+	if u.searchParams != nil {
+		c.searchParams = u.searchParams.Clone()
+		// the cloned search parameters belong to the clone, not to the original
+		c.searchParams.url = c
+	}
 	return c
 }
 
